@@ -274,8 +274,22 @@ Proof.
     destruct (has_marker (message (plug r e))) eqn:Hh; [discriminate|].
     injection Hb as <-. cbn [plug]. split; [reflexivity|].
     assert (Hnil : ctx_embeds r = []).
-    { destruct (ctx_embeds r) eqn:E; [reflexivity|]. Show. rewrite Hm in Hh; [discriminate|discriminate]. }
+    { destruct (ctx_embeds r) eqn:E; [reflexivity|]. exfalso.
+      assert (Hft : false = true) by (apply Hm; discriminate). discriminate Hft. }
     cbn [ctx_embeds flat_map app]. unfold ctx_embeds in Hnil. rewrite Hnil. cbn. split; [lia|reflexivity].
+Qed.
+
+(* the first row whose key matches the chain is the row of the chain's class *)
+Lemma find_row_gen (t : list (class * code)) (e : err) :
+  option_map snd (find (fun row => is_chain e (fst row)) t) =
+  match leaf_class e with Some c => lookup_class t c | None => None end.
+Proof.
+  destruct (leaf_class e) as [c|] eqn:E.
+  - induction t as [|[c0 k0] t IH]; [reflexivity|].
+    cbn [find lookup_class fst]. rewrite is_chain_leaf, E.
+    destruct (class_eqb c0 c) eqn:Hc; rewrite (class_eqb_sym c c0), Hc; [reflexivity|exact IH].
+  - induction t as [|[c0 k0] t IH]; [reflexivity|].
+    cbn [find fst]. rewrite is_chain_leaf, E. exact IH.
 Qed.
 
 (** * The tables *)
@@ -318,15 +332,7 @@ Section Tables.
   Lemma find_row (e : err) :
     option_map snd (find (fun row => is_chain e (fst row)) (t_e2c T)) =
     match leaf_class e with Some c => to_code T c | None => None end.
-  Proof.
-    unfold to_code. induction (t_e2c T) as [|[c0 k0] t IH]; cbn [find lookup_class fst].
-    - destruct (leaf_class e); reflexivity.
-    - rewrite is_chain_leaf. destruct (leaf_class e) as [c|].
-      + rewrite (class_eqb_sym c c0). destruct (class_eqb c0 c); [reflexivity|].
-        rewrite <- IH, is_chain_leaf. reflexivity.
-      + rewrite <- IH. clear IH. induction t as [|[c1 k1] t IH]; [reflexivity|].
-        cbn [find fst]. exact IH.
-  Qed.
+  Proof. apply find_row_gen. Qed.
 
   (* GRPCStatusCode of an error that is not a status error *)
   Lemma grpc_status_code_unknown (e : err) :
@@ -554,4 +560,139 @@ Proof.
   { apply existsb_exists. exists (class_idx c). split; [|apply N.eqb_refl].
     apply in_map_iff in Hin as (row & Hr & Hin). apply in_map_iff. exists row. rewrite Hr. auto. }
   congruence.
+Qed.
+
+(** * The hand-written copy of the tables *)
+
+Lemma std_tables_ok : tables_ok std_tables = true.
+Proof. vm_compute. reflexivity. Qed.
+
+(* the ten classes of errorsToCode *)
+Definition classes_with_code : list class :=
+  [ErrExist; ErrNotExist; ErrInvalid; ErrNotAuthorized; ErrDataLoss; ErrInternal;
+   ErrConflict; ErrExhausted; ErrUnimplemented; ErrCanceled].
+
+Lemma std_has_code (c : class) :
+  In c classes_with_code <-> exists k, to_code std_tables c = Some k.
+Proof.
+  split.
+  - intros H. destruct c; cbn in H; try (eexists; reflexivity);
+      exfalso; repeat (destruct H as [H|H]; [discriminate H|]); exact H.
+  - intros [k Hk]. destruct c; cbn; try tauto; discriminate Hk.
+Qed.
+
+Lemma std_class_survives (c : class) (x : ctx) (c' : class) :
+  In c classes_with_code ->
+  Is_o std_tables (grpc_wrap std_tables (plug x (Sentinel c))) c' = class_eqb c' c /\
+  Is_o std_tables (transport_o (grpc_wrap std_tables (plug x (Sentinel c)))) c' = class_eqb c' c.
+Proof.
+  intros Hin. apply std_has_code in Hin as [k Hk].
+  rewrite (transport_wrapped std_tables std_tables_ok).
+  split; exact (class_survives std_tables std_tables_ok c k x c' Hk).
+Qed.
+
+(* ErrClosed and ErrCommunication have no code: they travel as Internal and come back as ErrInternal *)
+Lemma std_class_without_code (c : class) (x : ctx) (c' : class) :
+  ~ In c classes_with_code ->
+  (c = ErrClosed \/ c = ErrCommunication) /\
+  Is_o std_tables (grpc_wrap std_tables (plug x (Sentinel c))) c' = class_eqb c' ErrInternal /\
+  grpc_status_code_o std_tables (grpc_wrap std_tables (plug x (Sentinel c))) = Internal.
+Proof.
+  intros Hn.
+  assert (Hc : c = ErrClosed \/ c = ErrCommunication).
+  { destruct c; auto; exfalso; apply Hn; cbn; tauto. }
+  split; [exact Hc|].
+  assert (Hk : to_code std_tables c = None) by (destruct Hc as [-> | ->]; reflexivity).
+  rewrite (grpc_wrap_plug_sentinel std_tables std_tables_ok), Hk.
+  split; [|reflexivity].
+  cbn [Is_o]. rewrite Is_status. destruct c'; reflexivity.
+Qed.
+
+Lemma std_codes_total :
+  from_code std_tables OK = None /\
+  forall k, k <> OK -> exists! c, from_code std_tables k = Some c.
+Proof.
+  assert (H : codes_total_b std_tables = true) by (vm_compute; reflexivity).
+  apply codes_total_of_b in H as [H0 H]. split; [exact H0|].
+  intros k Hk. destruct (H k Hk) as [c Hc]. exists c. split; [exact Hc|].
+  intros c' Hc'. congruence.
+Qed.
+
+Lemma std_keys_distinct : NoDup (map fst (t_e2c std_tables)).
+Proof. apply keys_distinct_of_b. vm_compute. reflexivity. Qed.
+
+(* the whole code -> class map, spelled out *)
+Lemma std_from_code_table :
+  map (from_code std_tables) all_codes =
+  [None; Some ErrCanceled; Some ErrCommunication; Some ErrInvalid; Some ErrCommunication;
+   Some ErrNotExist; Some ErrExist; Some ErrNotAuthorized; Some ErrExhausted; Some ErrConflict;
+   Some ErrInternal; Some ErrInternal; Some ErrUnimplemented; Some ErrInternal; Some ErrInternal;
+   Some ErrDataLoss; Some ErrNotAuthorized].
+Proof. vm_compute. reflexivity. Qed.
+
+(** * Two tables that behave alike
+
+    [tables_equiv] compares what the functions can observe of a table: the
+    class of every code, the effective code of every class (its row, or the
+    default) and the default code.  It does not depend on the order of the
+    rows or on rows that repeat a default. *)
+
+Definition eff_code (T : tables) (c : class) : code :=
+  match to_code T c with Some k => k | None => t_def_code T end.
+
+Definition tables_equiv (T1 T2 : tables) : bool :=
+  forallb (fun k => oclass_eqb (from_code T1 k) (from_code T2 k)) all_codes
+  && forallb (fun c => code_eqb (eff_code T1 c) (eff_code T2 c)) all_classes
+  && code_eqb (t_def_code T1) (t_def_code T2).
+
+Lemma oclass_eqb_eq (a b : option class) : oclass_eqb a b = true <-> a = b.
+Proof.
+  destruct a as [x|], b as [y|]; cbn [oclass_eqb]; try (split; intros H; congruence).
+  rewrite class_eqb_eq. split; intros H; congruence.
+Qed.
+
+Lemma tables_equiv_spec (T1 T2 : tables) :
+  tables_equiv T1 T2 = true ->
+  (forall k, from_code T1 k = from_code T2 k) /\
+  (forall c, eff_code T1 c = eff_code T2 c) /\
+  t_def_code T1 = t_def_code T2.
+Proof.
+  unfold tables_equiv. intros H.
+  apply andb_true_iff in H as [H H3]. apply andb_true_iff in H as [H1 H2].
+  rewrite forallb_forall in H1, H2. repeat split.
+  - intros k. apply oclass_eqb_eq, H1, all_codes_complete.
+  - intros c. apply code_eqb_eq, H2, all_classes_complete.
+  - apply code_eqb_eq, H3.
+Qed.
+
+(* GRPCStatusCode only sees the effective codes *)
+Lemma grpc_status_code_eff (T : tables) (e : err) :
+  grpc_status_code T e =
+  if negb (code_eqb (status_code e) Unknown) then status_code e
+  else match leaf_class e with Some c => eff_code T c | None => t_def_code T end.
+Proof.
+  destruct (code_eqb_spec (status_code e) Unknown) as [Hu|Hu]; cbn [negb].
+  - rewrite (grpc_status_code_unknown T e Hu). reflexivity.
+  - unfold grpc_status_code. apply code_eqb_neq in Hu. rewrite Hu. reflexivity.
+Qed.
+
+(** equivalent tables give the same model functions on every error value *)
+Lemma equiv_behaviour (T1 T2 : tables) :
+  tables_equiv T1 T2 = true ->
+  forall e : err,
+    grpc_status_code T1 e = grpc_status_code T2 e /\
+    from_grpc T1 e = from_grpc T2 e /\
+    (forall c, Is T1 e c = Is T2 e c) /\
+    grpc_wrap T1 e = grpc_wrap T2 e.
+Proof.
+  intros H e. destruct (tables_equiv_spec T1 T2 H) as (Hf & He & Hd).
+  assert (Hc : grpc_status_code T1 e = grpc_status_code T2 e).
+  { rewrite !grpc_status_code_eff. destruct (negb _); [reflexivity|].
+    destruct (leaf_class e) as [c|]; [apply He|exact Hd]. }
+  assert (Hg : from_grpc T1 e = from_grpc T2 e) by (unfold from_grpc; apply Hf).
+  repeat split.
+  - exact Hc.
+  - exact Hg.
+  - intros c. unfold Is. rewrite Hg. reflexivity.
+  - unfold grpc_wrap. rewrite Hc. reflexivity.
 Qed.
